@@ -7,7 +7,7 @@ logs = sys.argv[1:]
 rows = {}
 import itertools
 for line in itertools.chain.from_iterable(open(l) for l in logs):
-    m = re.match(r"(C\d\d_[A-F]) (C\d\d) rc=(\d+) violations=(\d+)(.*)", line)
+    m = re.match(r"(C\d\d_[A-H]) (C\d\d) rc=(\d+) violations=(\d+)(.*)", line)
     if not m:
         continue
     seed, pid, rc, nv, rest = m.group(1), m.group(2), int(m.group(3)), int(m.group(4)), m.group(5)
